@@ -84,7 +84,8 @@ var (
 	ovMu       sync.Mutex
 	ovInflight = map[string]int{}
 	ovSeen     = map[string]bool{}
-	slowSnap   atomic.Bool // scenario snapdup: a slow destination (1 ms per read)
+	goodUpload = map[string]string{} // snapDir:TXID -> an uploaded stream of that position that restored correctly
+	slowSnap   atomic.Bool           // scenario snapdup: a slow destination (1 ms per read)
 )
 
 type slowReader struct{ r io.Reader }
@@ -493,12 +494,17 @@ func (e *episode) doOp(r *rand.Rand) {
 		name = "RetentionByTXID"
 		if db != nil {
 			call(name, func() {
-				pos, _ := db.Pos()
+				// DB.EnforceRetentionByTXID deletes the files of a level that lie wholly below txID
+				// (keeping the newest); its callers (Store.EnforceSnapshotRetention) pass a TXID that a
+				// retained snapshot covers. An arbitrary TXID legitimately makes the replica
+				// unrestorable, so the floor used here is the newest published snapshot's position.
 				var t ltx.TXID
-				if pos.TXID > 3 {
-					t = pos.TXID - 3
+				if info, e := db.MaxLTXFileInfo(ctx, litestream.SnapshotLevel); e == nil {
+					t = info.MaxTXID
 				}
-				err = db.EnforceRetentionByTXID(ctx, 1, t)
+				if t > 0 {
+					err = db.EnforceRetentionByTXID(ctx, 1, t)
+				}
 			})
 		}
 	case x < 79:
@@ -597,6 +603,38 @@ func restore(repDir, out string, txid ltx.TXID) error {
 	return r.Restore(ctx, opt)
 }
 
+// topUpLocalTail copies the local L0 files that continue the archived chain into the
+// archive and the replica; returns how many there were.
+func (e *episode) topUpLocalTail() int {
+	maxOf := func(dir string) ltx.TXID {
+		var m ltx.TXID
+		ents, _ := os.ReadDir(dir)
+		for _, ent := range ents {
+			if _, mx, err := ltx.ParseFilename(ent.Name()); err == nil && mx > m {
+				m = mx
+			}
+		}
+		return m
+	}
+	arc0 := filepath.Join(e.arcDir, "ltx", "0")
+	local := filepath.Join(filepath.Dir(e.dbPath), "."+filepath.Base(e.dbPath)+litestream.MetaDirSuffix, "ltx", "0")
+	n := 0
+	for next := maxOf(arc0) + 1; ; next++ {
+		name := ltx.FormatFilename(next, next)
+		b, err := os.ReadFile(filepath.Join(local, name))
+		if err != nil {
+			return n
+		}
+		for _, d := range []string{arc0, filepath.Join(e.repDir, "ltx", "0")} {
+			_ = os.MkdirAll(d, 0o755)
+			_ = os.WriteFile(filepath.Join(d, name), b, 0o644)
+		}
+		n++
+	}
+}
+
+var snapDiffSig string // signature of a snapshot/L0-chain difference in the current context
+
 func fdsUnder(dir string) []string {
 	ents, _ := os.ReadDir("/proc/self/fd")
 	var out []string
@@ -658,11 +696,18 @@ func snapshotOracle(label string, files map[string]ltx.TXID, arcDir, scratch str
 		_, got, _ := pageDigests(outA)
 		checked++
 		if d := diffPages(got, ref); len(d) > 0 {
-			violate(sigPrefix+"snapshot-differs-from-l0-chain-at-its-txid",
+			sig := sigPrefix + "snapshot-differs-from-l0-chain-at-its-txid"
+			if snapDiffSig != "" {
+				sig = snapDiffSig
+			}
+			violate(sig,
 				fmt.Sprintf("%s snapshot 1..%d (%s) differs from Restore(TXID=%d) of the L0 chain on %d page(s), first %v",
 					label, n, filepath.Base(p), n, len(d), d[:min(len(d), 8)]), rep)
 		} else if label == "uploaded" {
 			good[n]++
+			ovMu.Lock()
+			goodUpload[fmt.Sprintf("%s:%d", snapDir, uint64(n))] = p
+			ovMu.Unlock()
 		}
 	}
 	return checked
@@ -687,16 +732,19 @@ func snapshotFiles(dir string, archived bool) map[string]ltx.TXID {
 // ---- one episode ------------------------------------------------------------------
 
 type epResult struct {
-	Cfg         cfg              `json:"cfg"`
-	Ops         map[string]int64 `json:"ops"`
-	Errors      int64            `json:"op_errors"`
-	Writes      int64            `json:"app_commits"`
-	FinalTXID   uint64           `json:"final_txid"`
-	Snapshots   int              `json:"snapshots_checked"`
-	RegisterN   int              `json:"instances_after_concurrent_register"`
-	TraceEvents int              `json:"trace_events"`
-	Reinit      int              `json:"closed_instances_reinitialised"`
-	Ms          int64            `json:"ms"`
+	Cfg          cfg              `json:"cfg"`
+	Ops          map[string]int64 `json:"ops"`
+	Errors       int64            `json:"op_errors"`
+	Writes       int64            `json:"app_commits"`
+	FinalTXID    uint64           `json:"final_txid"`
+	Snapshots    int              `json:"snapshots_checked"`
+	RegisterN    int              `json:"instances_after_concurrent_register"`
+	TraceEvents  int              `json:"trace_events"`
+	Reinit       int              `json:"closed_instances_reinitialised"`
+	SnapRepaired int              `json:"corrupt_published_snapshots_replaced_by_good_upload"`
+	LocalTail    int              `json:"local_only_l0_files_after_close"`
+	SnapSetAside int              `json:"corrupt_published_snapshots_set_aside"`
+	Ms           int64            `json:"ms"`
 }
 
 var (
@@ -869,6 +917,20 @@ func runEpisode(c cfg, out string, cw *CaseWriter) (res epResult, err error) {
 	wwg.Wait()
 	res.Writes = nWrites.Load()
 
+	// A closed instance that a late Sync re-initialised (known finding, free episodes) holds a
+	// read transaction that really persists since beb697d: it would starve the TRUNCATE
+	// checkpoints of the final sync. Report it now and close the leaked objects.
+	earlyReinit := 0
+	if !c.Guarded {
+		for _, d := range e.insts {
+			if h, f, rtx, opened := d.VerifConcHandles(); !opened && (h || f || rtx) {
+				earlyReinit++
+				dd := d
+				call("DBCloseLeaked", func() { _ = dd.Close(context.Background()) })
+			}
+		}
+	}
+
 	// phase 3: settle, acknowledge, close
 	if d := e.store.FindDB(e.dbPath); d == nil {
 		nd := e.newDB()
@@ -938,6 +1000,7 @@ func runEpisode(c cfg, out string, cw *CaseWriter) (res epResult, err error) {
 			reinit++
 		}
 	}
+	reinit += earlyReinit
 	res.Reinit = reinit
 	if reinit > 0 {
 		violate("C12/closed-db-reinitialised-by-late-sync:read-lock-and-handles-leak",
@@ -988,18 +1051,33 @@ func runEpisode(c cfg, out string, cw *CaseWriter) (res epResult, err error) {
 		}
 		return res, nil
 	}
+	// L0 files that exist only locally: a Close whose context was cancelled runs its final
+	// sync but cannot upload. They are the unacknowledged tail of the chain; add them to the
+	// replica and to the archive so that the oracles compare like with like. A Close that
+	// reported success must not leave such a tail.
+	if tail := e.topUpLocalTail(); tail > 0 {
+		res.LocalTail = tail
+		if !c.CancelledClose && closeErr == nil && ackErr == nil {
+			violate("C12/close-succeeded-with-unuploaded-l0",
+				fmt.Sprintf("Store.Close returned nil but %d local L0 file(s) above the replica's position were never uploaded", tail), rep)
+		}
+	}
 	_, src, derr := pageDigests(e.dbPath)
 	if derr != nil {
 		return res, derr
 	}
 	sc := filepath.Join(e.dir, "scratch")
+	if e.opCount["CheckpointFull"].Load()+e.opCount["CheckpointRestart"].Load()+e.opCount["CRC64"].Load() > 0 {
+		snapDiffSig = "C12/F9b:full-or-restart-checkpoint-under-writers-then-snapshot:snapshot-differs-from-l0-chain-at-its-txid"
+	}
+	defer func() { snapDiffSig = "" }()
 	// C02: snapshots
 	good := map[ltx.TXID]int{}
 	res.Snapshots = snapshotOracle("uploaded", snapshotFiles(e.snapDir, true), e.arcDir, sc, rep, "C12/", good, e.snapDir)
 	res.Snapshots += snapshotOracle("published", snapshotFiles(filepath.Join(e.repDir, "ltx", "9"), false), e.arcDir, sc, rep, "C12/", good, e.snapDir)
 	setAside := 0
-	// published files corrupted by overlapping uploads are reported above; set them aside so
-	// that the C01 oracle below still says something about the rest of the replica
+	// published files corrupted by overlapping uploads are reported above (known finding);
+	// repair or set them aside so that the C01 oracle below still judges the rest of the replica
 	for p, n := range snapshotFiles(filepath.Join(e.repDir, "ltx", "9"), false) {
 		if overlapped(e.snapDir, n) {
 			one := filepath.Join(sc, "chk")
@@ -1008,8 +1086,19 @@ func runEpisode(c cfg, out string, cw *CaseWriter) (res epResult, err error) {
 			b, _ := os.ReadFile(p)
 			_ = os.WriteFile(filepath.Join(one, "ltx", "9", filepath.Base(p)), b, 0o644)
 			if restore(one, filepath.Join(sc, "chk.db"), n) != nil {
-				_ = os.Remove(p)
-				setAside++
+				// Retention may already have removed everything the snapshot covers, so the rest
+				// of the replica can only be judged with a sound snapshot of the same position:
+				// put a correctly uploaded stream of that TXID in its place when there is one.
+				ovMu.Lock()
+				g := goodUpload[fmt.Sprintf("%s:%d", e.snapDir, uint64(n))]
+				ovMu.Unlock()
+				if gb, err := os.ReadFile(g); g != "" && err == nil {
+					_ = os.WriteFile(p, gb, 0o644)
+					res.SnapRepaired++
+				} else {
+					_ = os.Remove(p)
+					setAside++
+				}
 			}
 		}
 	}
@@ -1027,8 +1116,11 @@ func runEpisode(c cfg, out string, cw *CaseWriter) (res epResult, err error) {
 		violate("C12/final-sync-failed", fmt.Sprintf("SyncAndWait on the quiesced database failed after the stress: %v", ackErr), rep)
 	}
 	if err := restore(e.repDir, outL, 0); err != nil {
-		// retention may already have removed what lay below a snapshot that is now set aside
-		if !(setAside > 0 && errors.Is(err, litestream.ErrTxNotAvailable)) {
+		// retention may already have removed what lay below a corrupt snapshot that had to be set
+		// aside without a replacement: the planner then reports a missing or non-contiguous
+		// range, which is the consequence already described by the corrupt-snapshot finding
+		res.SnapSetAside = setAside
+		if !(setAside > 0 && strings.Contains(err.Error(), "cannot calc restore plan")) {
 			violate("C12/restore-latest-fails-after-stress", fmt.Sprintf("restore of the replica failed: %v", err), rep)
 		}
 	} else if ackOK {
@@ -1252,6 +1344,86 @@ func scenarioSnapDup(out string, rounds int) (detail string, err error) {
 	return fmt.Sprintf("round %d: two overlapping snapshots of one position (second one cancelled) left a corrupt published file", bad), nil
 }
 
+// ---- scenario: FULL checkpoint under a live writer, then a snapshot before the next sync ----------
+
+func scenarioCkptSnap(out string, rounds int) (detail string, err error) {
+	dir := filepath.Join(out, "ckptsnap") + "/"
+	_ = os.RemoveAll(dir)
+	dbPath := filepath.Join(dir, "src", "db.sqlite")
+	e := &episode{dir: dir, dbPath: dbPath, repDir: dir + "rep", arcDir: dir + "arc", snapDir: dir + "snaps",
+		c: cfg{MinCkptPages: 100000}, opCount: map[string]*atomic.Int64{}}
+	for _, d := range []string{filepath.Dir(dbPath), e.repDir, e.arcDir, e.snapDir, dir + "scratch"} {
+		_ = os.MkdirAll(d, 0o755)
+	}
+	e.app, err = openApp(dbPath, 5)
+	if err != nil {
+		return "", err
+	}
+	defer e.app.Close()
+	if _, err = e.app.Exec(`CREATE TABLE t(id INTEGER PRIMARY KEY, w INTEGER, v BLOB)`); err != nil {
+		return "", err
+	}
+	for i := 0; i < 40 && err == nil; i++ {
+		_, err = e.app.Exec(`INSERT INTO t(w, v) VALUES (0, randomblob(3000))`)
+	}
+	if err != nil {
+		return "", err
+	}
+	ctx := context.Background()
+	db := e.newDB()
+	db.MonitorInterval = 0
+	if err = db.Open(); err != nil {
+		return "", err
+	}
+	if err = db.SyncAndWait(ctx); err != nil {
+		return "", err
+	}
+	// Three application writers commit continuously while DB.Checkpoint(FULL|RESTART) and
+	// DB.Snapshot alternate without a sync in between. The defect needs one commit between the
+	// checkpoint's copy-before sync and its PRAGMA (it is backfilled unsynced) and another
+	// before the sequence bump (so the WAL is not restarted and the call returns without
+	// copying): roughly one round in sixty. (Holding a write transaction open across the
+	// PRAGMA is deterministic but takes the restart path, which 80a5b27 repaired.)
+	var wwg sync.WaitGroup
+	var nw atomic.Int64
+	for w := 1; w <= 3; w++ {
+		wwg.Add(1)
+		go e.writer(w, int64(41+w), &wwg, &nw)
+	}
+	nsnap, ncommit := 0, 0
+	for k := 0; k < rounds; k++ {
+		mode := litestream.CheckpointModeFull
+		if k%2 == 1 {
+			mode = litestream.CheckpointModeRestart
+		}
+		call("Checkpoint"+mode, func() { _ = db.Checkpoint(ctx, mode) })
+		call("Snapshot", func() {
+			if _, e := db.Snapshot(ctx); e == nil {
+				nsnap++
+			}
+		})
+		ncommit++
+	}
+	e.stop.Store(true)
+	wwg.Wait()
+	var e1, e2 error
+	call("SyncAndWait", func() { e1 = db.SyncAndWait(ctx) })
+	call("DBClose", func() { e2 = db.Close(ctx) })
+	if e1 != nil || e2 != nil {
+		return "", fmt.Errorf("final sync/close: %v / %v", e1, e2)
+	}
+	rep := map[string]any{"how": "harness conc -ckptsnap N", "history": "three application writers committing continuously; loop: DB.Checkpoint(FULL|RESTART); DB.Snapshot (no sync in between); finally SyncAndWait; Close; every snapshot 1..n against Restore(TXID=n) of the L0 chain"}
+	before := nViols()
+	snapDiffSig = "C12/F9b:full-or-restart-checkpoint-under-writers-then-snapshot:snapshot-differs-from-l0-chain-at-its-txid"
+	n := snapshotOracle("uploaded", snapshotFiles(e.snapDir, true), e.arcDir, dir+"scratch", rep, "C12/", map[ltx.TXID]int{}, e.snapDir)
+	snapDiffSig = ""
+	if nViols() == before {
+		_ = os.RemoveAll(dir)
+		return fmt.Sprintf("%d rounds of Checkpoint(FULL|RESTART)+Snapshot under three live writers (%d commits), %d snapshots, all equal to the L0 chain at their TXID", ncommit, nw.Load(), n), nil
+	}
+	return fmt.Sprintf("%d rounds, %d commits, %d snapshots checked: a snapshot contains a commit that landed during the checkpoint although its position does not", ncommit, nw.Load(), n), nil
+}
+
 // ---- scenario: init under a cancelled context ---------------------------------------------------
 
 func scenarioHalfInit(out string) (detail string, err error) {
@@ -1384,8 +1556,14 @@ func scenarioBasic(out string) (detail string, err error) {
 	do("Status", func() error { _ = db.IsOpen(); _ = db.PageSize(); _ = e.store.DBs(); return nil })
 	do("DisableDB", func() error { return e.store.DisableDB(ctx, e.dbPath) })
 	do("EnableDB", func() error { return e.store.EnableDB(ctx, e.dbPath) })
+	// a snapshot request before the first sync re-initialises the database: the page size
+	// survived Close, the file handle did not, so the reader set-up fails after the
+	// position / chkMu hand-off — the failure must release the read lock again
+	do("SnapshotBeforeInit", func() error { _, err := db.Snapshot(ctx); return err })
 	write()
 	do("SyncAndWait", func() error { return db.SyncAndWait(ctx) })
+	write()
+	do("CheckpointPassive", func() error { return db.Checkpoint(ctx, litestream.CheckpointModePassive) })
 	do("UnregisterDB", func() error { return e.store.UnregisterDB(ctx, e.dbPath) })
 	do("StoreClose", func() error { return e.store.Close(ctx) })
 	ev := emitTrace(cw, "basic")
@@ -1416,6 +1594,7 @@ func cmdConc(args []string) error {
 	f9 := fl.Bool("f9", true, "also run the F9 scenario")
 	regsched := fl.Int("regsched", 2, "registry schedules: longest sequence of whole calls while a RegisterDB is parked (0 = skip)")
 	regstress := fl.Int("regstress", 10, "rounds of the randomised multi-path registration scenario (0 = skip)")
+	ckptsnap := fl.Int("ckptsnap", 0, "rounds of the FULL/RESTART-checkpoint-then-snapshot scenario (0 = skip)")
 	halfinit := fl.Bool("halfinit", true, "also run the init-under-cancelled-context scenario")
 	snapdup := fl.Int("snapdup", 6, "rounds of the concurrent-snapshot scenario (0 = skip)")
 	budget := fl.Duration("budget", 0, "stop starting new episodes after this much wall time (0 = none)")
@@ -1437,7 +1616,7 @@ func cmdConc(args []string) error {
 		return err
 	}
 	var results []epResult
-	var f9detail, sddetail, hidetail, rsdetail, rtdetail, bsdetail string
+	var f9detail, sddetail, hidetail, rsdetail, rtdetail, bsdetail, csdetail string
 	finish := func() {
 		_ = cw.Close()
 		st := cw.Stats()
@@ -1450,7 +1629,7 @@ func cmdConc(args []string) error {
 				tot[k] += v
 			}
 		}
-		st.Extra = map[string]any{"episodes": results, "ops_total": tot, "f9": f9detail, "snapdup": sddetail, "halfinit": hidetail, "regsched": rsdetail, "regstress": rtdetail, "basic": bsdetail, "trace_hook": traceEnabled, "trace_events_total": traceTotal}
+		st.Extra = map[string]any{"episodes": results, "ops_total": tot, "f9": f9detail, "snapdup": sddetail, "halfinit": hidetail, "regsched": rsdetail, "regstress": rtdetail, "basic": bsdetail, "ckptsnap": csdetail, "trace_hook": traceEnabled, "trace_events_total": traceTotal}
 		_ = WriteJSON(filepath.Join(*out, "stats.json"), st)
 	}
 	wdCW = cw
@@ -1493,6 +1672,16 @@ func cmdConc(args []string) error {
 			f9detail = "scenario could not be set up: " + err.Error()
 		} else {
 			f9detail = d
+		}
+	}
+	if *ckptsnap > 0 && *only < 0 {
+		traceReset()
+		d, err := scenarioCkptSnap(*out, *ckptsnap)
+		emitTrace(cw, "ckptsnap")
+		if err != nil {
+			csdetail = "scenario could not be completed: " + err.Error()
+		} else {
+			csdetail = d
 		}
 	}
 	if *halfinit && *only < 0 {
